@@ -39,9 +39,23 @@ Proof. exact (endpoints_is_corner_minmax fexp fpow e box r). Qed.
 Theorem C13_endpoints_inside_range e box r : wf_box box -> endpoints RN fexp fpow e box = Ok r ->
   (exists c, in_box c box /\ eval RN fexp fpow e c = fst r) /\ (exists c, in_box c box /\ eval RN fexp fpow e c = snd r).
 Proof. exact (endpoints_inside_range fexp fpow e box r). Qed.
+(* subinterval reconstitution with vertices lies between the plain vertex result and the true range:
+   (a) it contains the vertex result of the un-subdivided box (each box corner is a corner of the first or last tile per dimension);
+   (b) both of its ends are values of the function at points of the box *)
+Theorem C13_sub_endpoints_contains_endpoints e box n r r0 : (1 <= n)%nat ->
+  sub_endpoints RN fexp fpow e box n = Ok r -> endpoints RN fexp fpow e box = Ok r0 -> sub_pr r0 r.
+Proof. exact (sub_endpoints_contains_endpoints fexp fpow e box n r r0). Qed.
+Theorem C13_sub_endpoints_inside_range e box n r : (1 <= n)%nat -> wf_box box ->
+  sub_endpoints RN fexp fpow e box n = Ok r ->
+  (exists c, in_box c box /\ eval RN fexp fpow e c = fst r) /\ (exists c, in_box c box /\ eval RN fexp fpow e c = snd r).
+Proof. intros Hn W. apply (sub_endpoints_inside_range fexp fpow e box n r Hn W). intros tb Hin. exact (tiles_inside box n tb W Hn Hin). Qed.
 End S.
 
 Print Assumptions C13_direct_encloses.
 Print Assumptions C13_tiles_cover.
 Print Assumptions C13_sub_direct_encloses.
 Print Assumptions C13_endpoints_inside_range.
+Print Assumptions C13_sub_direct_encloses_wf.
+Print Assumptions C13_sub_direct_inside_direct.
+Print Assumptions C13_sub_endpoints_contains_endpoints.
+Print Assumptions C13_sub_endpoints_inside_range.
